@@ -240,8 +240,9 @@ def _instrument(model, max_solves):
         if log.solve_no + 1 >= log.max_solves:
             raise _OutOfSolves()
         log.solve_no += 1
-        log.cur = {"incs": [], "flags": [], "iters": [], "hook": None, "snap": None,
-                   "ret": None, "end": None}
+        log.cur = {"incs": [], "flags": [], "iters": [], "hook": None, "hooks": [],
+                   "snap": None, "ret": None, "end": None,
+                   "attempt": _clock(tm, None)}      # the clock the solve is attempted at
         log.solves.append(log.cur)
         log.last_out = None
         return orig_before()
@@ -261,6 +262,7 @@ def _instrument(model, max_solves):
     def wrap_hook(name, orig):
         def hook():
             log.cur["hook"] = name
+            log.cur["hooks"].append(name)
             log.last_out = None
             try:
                 r = orig()
@@ -335,7 +337,8 @@ def _logged(s):
     iterations is sent only when it differs from the previously sent one (None = identical,
     checked bitwise here; Coq then compares the model's slot with the carried literal)."""
     snap = s["snap"] if s["snap"] is not None else s["end"]
-    conv = (s["hook"] == "conv") if s["hook"] is not None else bool(s["ret"] is True)
+    hooks = s.get("hooks", [s["hook"]] if s["hook"] else [])
+    conv = (hooks == ["conv"]) if hooks else bool(s["ret"] is True)
     clock = dict(snap["clock"])
     if clock["out"] is None:
         clock["out"] = ["unit"]
@@ -637,6 +640,18 @@ class C10(Prop):
                 continue                       # interrupted by the harness' cap on solves
             end = s["end"]["store"]
             it0, ts0 = slot0(end, "it"), slot0(end, "ts")
+            hooks = s.get("hooks", [])
+            if s["ret"] is True and hooks != ["conv"]:
+                # a converged step is finished by after_nonlinear_convergence alone: running
+                # after_nonlinear_failure as well rewinds the clock under an accepted solution
+                return (f"hooks:solve {n} reported converged but ran the hooks {hooks} "
+                        f"(clock {s['end']['clock']['time']!r}, attempted at "
+                        f"{s['attempt']['time']!r})")
+            if s["ret"] is False and hooks != ["fail"]:
+                return f"hooks:solve {n} reported failed but ran the hooks {hooks}"
+            if s["ret"] is True and s["end"]["clock"]["time"] != s["attempt"]["time"]:
+                return (f"hooks:solve {n} converged at time {s['attempt']['time']!r} but the "
+                        f"clock is left at {s['end']['clock']['time']!r}")
             if s["ret"] is True:
                 # claim 1: after a converged step the most recent time-step values are the
                 # converged iterate (= what the last Newton iteration left at iterate 0)
